@@ -21,7 +21,10 @@ def main():
     jobs = json.loads(sys.stdin.read())
     res = []
     for j in jobs:
-        if j["kind"] == "steps":
+        if j["kind"] == "editseq":
+            outs = fc.run_editseq(j["specs"], j["req_h"], ct.graph_from_py(j["graph"]), j["events"])
+            res.append({"answers": [x if x[0] == "MUTATED" else fc.norm_answer(x) for x in outs], "mutated": any(x[0] == "MUTATED" for x in outs)})
+        elif j["kind"] == "steps":
             steps = [{"specs": st["specs"], "req_h": st["req_h"], "via": st["via"], "graph": ct.graph_from_py(st["graph"])}
                      for st in j["steps"]]
             outs, mutated = fc.run_steps(steps)
